@@ -203,6 +203,34 @@ def audit_proofs(theorem_file):
                 names=names, axioms=sorted(axioms), problems=problems)
 
 
+def coqchk_audit(theorem_file):
+    """thorough tier: re-check the compiled theorem file and everything it depends on with the independent checker"""
+    mod = "BL." + theorem_file[:-2].replace("/", ".")
+    try:
+        p = subprocess.run(["timeout", "1700", "coqchk", "-o", "-silent", "-Q", ".", "BL", mod], cwd=build.COQ,
+                           stdout=subprocess.PIPE, stderr=subprocess.STDOUT, text=True, timeout=1800)
+    except subprocess.TimeoutExpired:
+        return ["coqchk timed out on " + mod]
+    out = p.stdout
+    problems = []
+    if p.returncode != 0 or "CONTEXT SUMMARY" not in out:
+        return ["coqchk failed on %s: %s" % (mod, out[-400:])]
+    m = re.search(r"\* Axioms:(.*?)\n\s*\n\* Constants", out, re.S)
+    axioms = re.findall(r"([A-Za-z0-9_.']+)", m.group(1)) if m else []
+    for ax in axioms:
+        if ax == "<none>":
+            continue
+        short = ax[4:] if ax.startswith("Coq.") else ax
+        short = ".".join(short.split(".")[-2:])
+        if short not in ALLOWED_AXIOMS:
+            problems.append("coqchk: axiom %s is not on the allow-list" % ax)
+    for what in ("relying on type-in-type", "relying on unsafe (co)fixpoints", "whose positivity is assumed"):
+        mm = re.search(re.escape(what) + r": (.*)", out)
+        if not mm or mm.group(1).strip() != "<none>":
+            problems.append("coqchk: something is %s: %s" % (what, mm.group(1) if mm else "?"))
+    return problems
+
+
 # --------------------------------------------------------------------------
 # known findings
 # --------------------------------------------------------------------------
@@ -286,6 +314,10 @@ def run_check(mod, tier, seed):
 
     audit = audit_proofs(mod.THEOREM_FILE) if ok_coq else dict(
         obligations=1, discharged=0, names=[], axioms=[], problems=["coq build failed: " + logs.get("coq", "")[-800:]])
+    if ok_coq and tier == "thorough":
+        cp = coqchk_audit(mod.THEOREM_FILE)
+        audit["coqchk"] = "ok" if not cp else cp
+        audit["problems"] = audit["problems"] + cp
 
     cases = []
     corpus = getattr(mod, "corpus", None)
@@ -327,6 +359,27 @@ def run_check(mod, tier, seed):
             cases.extend(more)
             impl.extend(bi)
             model.extend(bm)
+
+    # in-kernel cross-check of extraction and glue: a sample of the cases is evaluated by vm_compute inside Coq
+    xcheck = dict(cases=0, differences=0, note="")
+    xproblems = []
+    if ok_drv:
+        import kernel_xcheck
+        cand = [i for i, c in enumerate(cases) if c.side in ("both", "model") and model[i] not in (None, "HANG", "CRASH", "SKIPPED")
+                and len(c.line) < 3000 and len(model[i]) < 6000 and c.line.isascii()]
+        want = 24 if tier == "quick" else 400
+        pick = sorted(rng.sample(cand, min(want, len(cand))))
+        if pick:
+            ans, xlog = kernel_xcheck.run([cases[i].line for i in pick], prop, timeout=240 if tier == "quick" else 1800)
+            if ans is None:
+                xcheck["note"] = "not evaluated: " + xlog[-200:]
+            else:
+                xcheck["cases"] = len(pick)
+                for i, a in zip(pick, ans):
+                    if a != model[i]:
+                        xcheck["differences"] += 1
+                        if len(xproblems) < 3:
+                            xproblems.append("extracted driver and in-kernel evaluation differ on %r: %r vs %r" % (cases[i].line[:200], model[i][:200], a[:200]))
 
     # monitors (spec verdict on the implementation) and correspondence
     mon_fail = []
@@ -390,6 +443,9 @@ def run_check(mod, tier, seed):
                             seed=seed, disagreements=len(unexplained), case=cases[i].line, input=cases[i].sig,
                             impl=impl[i], model=model[i],
                             note="the model no longer describes the implementation on this case; the theorems of %s are about the model" % mod.THEOREM_FILE))
+    if xproblems:
+        nfi.append(dict(property=prop, kind="extraction-broken", problems=xproblems,
+                        note="the extracted OCaml driver does not compute what the Gallina model computes in the kernel"))
     if audit["problems"] or audit["discharged"] != audit["obligations"] or not ok_drv:
         nfi.append(dict(property=prop, kind="proof-broken", theorem_file=mod.THEOREM_FILE, problems=audit["problems"],
                         driver_ok=ok_drv, log=logs.get("coq", "")[-1500:] if not ok_coq else ""))
@@ -412,7 +468,7 @@ def run_check(mod, tier, seed):
 
     write_evidence(mod, tier, seed, t0, audit, cases, impl, sorted(nontrivial), len(violations) + (len(nfi) if not violations else 0),
                    dict(distribution=dist, model_impl_disagreements=len(diffs), monitor_failures=len(mon_fail),
-                        known_findings_hit=sorted(known_hits.keys())))
+                        known_findings_hit=sorted(known_hits.keys()), kernel_crosscheck=xcheck))
     print("%s %s: %d cases, %d model/impl disagreements, %d monitor failures, proofs %d/%d, %.1fs" % (
         prop, tier, len(cases), len(diffs), len(mon_fail), audit["discharged"], audit["obligations"], time.time() - t0))
     return rc
@@ -437,6 +493,7 @@ def write_evidence(mod, tier, seed, t0, audit, cases, impl, nontrivial, nviol, e
         theorems=audit.get("names", []),
         axioms_reported_by_print_assumptions=audit.get("axioms", []),
         proof_problems=audit.get("problems", []),
+        coqchk=audit.get("coqchk", "not run in the quick tier"),
         evaluations=len(cases),
         distinct_nontrivial=len(nontrivial),
         rule=getattr(mod, "RULE", ""),
